@@ -54,7 +54,7 @@ def strategy(tier):
 
 
 def hyp_examples(tier):
-    return 150 if tier == "quick" else 5000
+    return 300 if tier == "quick" else 5000
 
 
 def enum_units(tier, seed):
